@@ -4,7 +4,7 @@ from lib.coqterm import cbool, cbytes, clist, cN, cZ
 
 ID = "C05"
 QUICK_N = 1500
-THOROUGH_N = 40000
+THOROUGH_N = 20000
 SHARD = 125
 COQ_PRELUDE = "From MV Require Import Model.Http2Streams.\n"
 RULE = ("70% end-to-end schedules: a real HttpLayer (regular mode, HTTP/2 client, HTTP/2 upstream) between two real in-memory "
